@@ -511,7 +511,7 @@ func (s *Spec) anyCapable() bool {
 	case "reflect":
 		// only values that Any does not special-case
 		switch s.V.(type) {
-		case nil, map[string]any, reflStruct, *reflStruct, []any, [2]bool, struct{}, chan int, map[string]float64, func(), json.RawMessage:
+		case nil, map[string]any, reflStruct, *reflStruct, []any, [2]bool, struct{}, chan int, map[string]float64, func(), json.RawMessage, detailStruct:
 			return true
 		}
 		return false
@@ -650,7 +650,7 @@ func expectErr(k string, e *errSpec, o *objX) string {
 		return ""
 	case "panic":
 		return "PANIC=" + e.Msg
-	case "plain", "plainfmt", "ptr":
+	case "plain", "plainfmt", "ptr", "detail":
 		o.put(k, xstr(uni(e.Msg)))
 		return ""
 	case "verbose":
